@@ -20,7 +20,9 @@ def gen(rng):
     order = list(range(n))
     rng.shuffle(order)
     return {"npos": npos, "nkw": nkw, "fail": fail, "order": order, "pre": [rng.random() < 0.3 for _ in range(n)],
-            "fn_raises": rng.random() < 0.15, "env_threads": rng.randint(1, 3)}
+            "fn_raises": rng.random() < 0.15, "env_threads": rng.randint(1, 3),
+            # arguments whose VALUE is itself a future (pending / done / failed): passed to fn as they are
+            "futvals": {str(i): rng.choice(["pending", "done", "failed"]) for i in range(1, n) if rng.random() < 0.12}}
 
 
 def execute(p, chooser):
@@ -32,6 +34,16 @@ def execute(p, chooser):
         n = p["npos"] + p["nkw"] + 1
         with det.atomic():
             futs = [Future() for _ in range(n)]
+        vals = {i: ("a", i) for i in range(1, n)}
+        with det.atomic():
+            for i, kind in p.get("futvals", {}).items():
+                inner = Future()
+                if kind == "done":
+                    inner.set_result("inner")
+                elif kind == "failed":
+                    inner.set_exception(RuntimeError("inner failure"))
+                vals[int(i)] = inner
+        obs["vals"] = vals
         boom = KeyError("input")
         fnexc = ValueError("fn")
 
@@ -48,7 +60,7 @@ def execute(p, chooser):
             elif i == 0:
                 futs[0].set_result(fn)
             else:
-                futs[i].set_result(("a", i))
+                futs[i].set_result(vals[i])
 
         with det.atomic():
             for i in range(n):
@@ -92,8 +104,9 @@ def monitor(r, obs):
         return [{"what": "harness-exception", "detail": getattr(r, "tb", repr(r.exc))[-500:], "pattern": "apply:harness-exc"}]
     st, exc, res, boom, fnexc = obs["res"]
     calls = obs["calls"]
-    want_a = tuple(("a", i) for i in range(1, 1 + p["npos"]))
-    want_k = tuple(sorted(("k%d" % j, ("a", 1 + p["npos"] + j)) for j in range(p["nkw"])))
+    vals = obs["vals"]
+    want_a = tuple(vals[i] for i in range(1, 1 + p["npos"]))
+    want_k = tuple(sorted(("k%d" % j, vals[1 + p["npos"] + j]) for j in range(p["nkw"])))
     if p["fail"] is not None:
         if calls:
             out.append({"what": "fn was called although input %d failed" % p["fail"], "detail": str(p), "pattern": "apply:called-on-failure"})
